@@ -122,7 +122,7 @@ theorem trailer_names_not_forbidden (titleFn : Bytes → Bytes) (forbidden : Lis
 theorem unannounced_trailer_400 (E : Env) (m : Msg) (ts : Headers.Coll) (hnone : m.headers.get? sTrailer = none) (hts : ts ≠ []) :
     mergeTrailers E m ts = .error bad := by
   have he : ts.isEmpty = false := by cases ts <;> simp_all
-  simp [mergeTrailers, hnone, mergeGo, he]
+  simp [mergeTrailers, announced, hnone, mergeGo, he]
 
 theorem to400_ok {α} (a : α) : to400 (.ok a : R α) = .ok a := rfl
 
